@@ -150,6 +150,14 @@ def check(ctx):
                    msg="timer callback %s leaves its own (fired) handle stored in %s and %s later cancels it without .active(): "
                        "AlreadyCalled is raised and the remaining clean-up is skipped" % (short(ent.func.qual), ".".join(loc), short(e.func)),
                    trigger=tr.label())
+        seen_ul = set()
+        for tr, e, loc, tr2, e2 in hd.unstarted_loops():
+            if (e.func, loc) in seen_ul or not (True):
+                continue
+            seen_ul.add((e.func, loc))
+            ctx.ob("H-FIRED", "%s no periodic call is stored without being started (%s)" % (cq, tr.label()), False, where=where(e), function=e.func,
+                   construct="%s/loop-created-not-started/%s" % (e.func, ".".join(loc)),
+                   msg="%s creates the periodic call stored in %s without starting it; %s (%s) finds it not None and calls stop() on a loop that is not running: LoopingCall.stop() asserts - %s" % (tr.label(), ".".join(loc), tr2.label(), where(e2), 'the AssertionError skips the rest of the loss clean-up: the retry alarms of every window stay armed'))
         for tr, e, loc, tr2, e2 in hd.cancelled_kept():
             ctx.ob("H-FIRED", "%s %s leaves no cancelled handle behind" % (cq, tr.label()), False, where=where(e), function=e.func,
                    construct="%s/cancelled-handle-kept/%s" % (e.func, ".".join(loc)),
